@@ -91,7 +91,7 @@ var typeAlphabet = []*uint256.Int{u256(gen.TypeA), u256(gen.TypeB)}
 const regNamePtr = 0x200 // where registration name strings live in memory
 
 // buildJM resolves one journal-matrix case through the explorer.
-func buildJM(c *mc.Ctx, thorough bool) *jmCase {
+func buildJM(c *mc.Ctx, thorough bool, huge bool) *jmCase {
 	J := gen.JBoundaryQuick
 	if thorough {
 		J = gen.JBoundary
@@ -184,7 +184,7 @@ func buildJM(c *mc.Ctx, thorough bool) *jmCase {
 	// storage under the slot
 	storage := map[common.Hash]common.Hash{}
 	if op.Op == 0xe6 || op.Op == 0xe7 {
-		sws := storageWords(true)
+		sws := storageWords(huge)
 		sw := sws[c.Choose(len(sws))]
 		for k, v := range sw.Words(slot) {
 			storage[k] = v
